@@ -383,6 +383,39 @@ def main(tier, replay=None):
                 got = resub(variant, text, 5.0)     # (a stalled process is not a formula that does not return)
             obs += got
     run.extra['listeners_changing_subscriptions'] = len(obs) - n0
+    # --- callbacks that evaluate on the parser that is calling them (a cell holding a formula), also failing formulas
+    n0 = len(obs)
+
+    def reenter(inner, where, text, seconds):
+        q = lib.Parser()
+        q.set_variable('va', 3)
+        depth = [0]
+
+        def again(*a):
+            if depth[0] < 3:
+                depth[0] += 1
+                try:
+                    r = q.parse(inner)
+                finally:
+                    depth[0] -= 1
+                if where != 'fn':
+                    a[-1](r.get('result') if isinstance(r, dict) else None)
+                return r.get('result') if isinstance(r, dict) else None
+        if where == 'fn':
+            q.set_function('EVALF', again)
+        else:
+            q.on({'cell': 'callCellValue', 'range': 'callRangeValue', 'var': 'callVariable', 'call': 'callFunction'}[where], again)
+        rec, raised, timed = guarded_parse(q, text, seconds)
+        return observation('reenter', text, rec, raised, timed, extra={'inner': inner, 'where': where})
+
+    for inner in ('1+2', 'A2*2', '1+*', 'nosuch+1', '1/0', 'SUM(1,2)&"x"', 'EVALF()+1', 'va'):
+        for where, text in (('fn', 'EVALF()+1'), ('fn', 'SUM(EVALF(),EVALF())&"z"'), ('cell', 'A1+1'), ('range', 'SUM(A1:B2)'),
+                            ('var', 'va*2'), ('call', 'ABS(-1)+SUM(1,2)')):
+            o = reenter(inner, where, text, 0.5)
+            if o['timed_out']:
+                o = reenter(inner, where, text, 5.0)
+            obs.append(o)
+    run.extra['reentrant_callbacks'] = len(obs) - n0
     # --- every documented function x arity x pool
     n0 = len(obs)
     pool = pool_values(lib)
@@ -446,7 +479,7 @@ def main(tier, replay=None):
     # confirm timeouts deterministically
     for o in obs:
         if o['timed_out']:
-            if o['kind'] in ('fault', 'text', 'resubscribe'):
+            if o['kind'] in ('fault', 'text', 'resubscribe', 'reenter'):
                 continue
             def mk():
                 q = mk_parser(lib)
